@@ -389,7 +389,7 @@ reg("C18", needs_cli=True, gen=gen_skel, obligation_files=["Props/C18.v", "Gen/S
     technique="Coq proofs over a functional dial model and a lockset checker + reflection on regenerated skeletons; recorded dial histories",
     timeout={"quick": 600, "thorough": 3000})
 
-reg("C17",
+reg("C17", needs_cli=True,
     rule="LTTB: every (count, threshold) with count <= 40 and threshold <= 42 (quick) / 66, 68 (thorough) through the exported "
          "lttb.Downsample with a recording iterator, plus random counts 100..5000 with thresholds {0,1,2,3,4,count-1,count,count+1,random}; "
          "plot: 1..3 attacks of 1..60 (every 8th 300..1000) results with sequence numbers 0..n-1, timestamp gaps from 0 to two minutes, "
@@ -398,7 +398,7 @@ reg("C17",
          "case in 12 has a timestamp going back (outside the property, compared with the model only); non-trivial = plot cases and LTTB cases with 3 <= threshold < count",
     exhaustive="the LTTB grid only: all (count, threshold) with count <= 40, threshold <= 42 (quick) / count <= 66, threshold <= 68 (thorough)",
     clauses={1: "adding results in this order failed", 2: "the plotted points are not exactly one per result at x = ms since the attack's first request, y = latency, in the right OK/ERROR series",
-             3: "rows of a series are not sorted by x", 4: "downsampled series is not an identity / threshold-sized subsequence containing the first and last points", 5: "downsampling failed although no series is longer than a threshold of 1 or 2", 6: "the rows of the plotted data are not sorted by x",
+             3: "rows of a series are not sorted by x", 4: "downsampled series is not an identity / threshold-sized subsequence containing the first and last points", 5: "downsampling failed although no series is longer than a threshold of 1 or 2", 6: "the rows of the plotted data are not sorted by x", 7: "the plot command run on a file of the same results plots other data than the library",
              10: "series at or below the threshold (or threshold 0) changed", 11: "threshold 1 or 2 with a longer series not rejected", 12: "downsampling failed or panicked", 13: "not exactly threshold points",
              14: "not a subsequence of the input", 15: "first or last point missing"},
     diffs={30: "model and implementation disagree on whether adding fails", 31: "series differ from the model's", 40: "LTTB output or requested chunk sizes differ from the model with exact rational bucket bounds"},
